@@ -122,6 +122,38 @@ def mismatch(c1, c2, n_body, i0):
     return True
 
 
+def mismatch_middle(c1, c2, pos, n_lines, dash):
+    """a continuation line in the MIDDLE of a reply that carries a different code: the reply is rejected, not accepted as a
+    reply of the first code (whether the stream can be resynchronised afterwards is not claimed: the boundary of a broken
+    reply is undefined)"""
+    hb.KEY = ""
+    a, b = CODES[c1], CODES[c2]
+    n_lines = hb.conc(n_lines, 3, 5)
+    pos = hb.conc(pos, 1, 3)
+    if pos >= n_lines - 1:
+        return True
+    lines = []
+    for i in range(n_lines):
+        code = b if i == pos else a
+        sep = " " if i == n_lines - 1 else "-"
+        if i == pos and not dash:
+            sep = " "
+        lines.append((code + sep + "t%d\r\n" % i).encode())
+    c = aioftp.Client(path_io_factory=aioftp.MemoryPathIO)
+    c.stream = ListStream(lines)
+    try:
+        code, info = drive(c.parse_response())
+        rejected = False
+    except aioftp.StatusCodeError:
+        rejected = True
+    if a == b:
+        return not rejected
+    if not rejected:
+        hb.KEY = "accepted-with-foreign-code"
+        return False
+    return True
+
+
 def ascii_digit(ch):
     return ch in "0123456789"
 
